@@ -1310,3 +1310,60 @@ def c07_spi(entry, pixels, nodata, window=None, groups=None, cal=None):
         except Exception as e:  # noqa
             return {"violates": True, "why": f"raised {type(e).__name__}: {e}"[:200], "pixels": pix}
     return {"violates": False}
+
+
+def c08_spi(entry, pixel, nodata, window=None, groups=None, cal=None, shape="model"):
+    """Replay with witnesses shaped after the candidate: the model's own pixel, then degenerate pixels next to an ordinary one in
+    the same cube (no exception may escape), then a ladder of outliers far outside the calibration data (must saturate, not wrap)."""
+    from hdc.algo.ops import stats
+    rng = np.random.default_rng(47)
+    T = max(len(pixel), 12)
+    ordinary = np.round(rng.gamma(2.0, 40.0, T)).astype("float64") + 1
+    probs = []
+
+    def run_cube(pix_list, dtype, win):
+        cube = np.array(pix_list, dtype=dtype).reshape(1, len(pix_list), -1)
+        return stats.gammastd_yxt(cube, nodata, cal_start=win[0], cal_stop=win[1])[0]
+    win = (0, T)
+    # 1. the model's pixel itself (padded with ordinary values is not needed: run as is)
+    try:
+        p = np.array(pixel, dtype="int16")
+        if entry == "grp":
+            g = np.array(groups, dtype="int16")
+            stats.gammastd_grp(p, g, int(max(groups)) + 1, nodata, np.array(cal, dtype="int16"))
+        else:
+            w0 = window or (0, len(p))
+            stats.gammastd_yxt(p.reshape(1, 1, -1), nodata, cal_start=w0[0], cal_stop=w0[1])
+    except Exception as e:  # noqa
+        probs.append(f"model pixel {list(pixel)}: raised {type(e).__name__}: {e}"[:160])
+    # 2. degenerate pixels next to an ordinary one
+    degenerate = {"all-negative": np.full(T, -5.0), "all-zero": np.zeros(T), "all-nodata": np.full(T, float(nodata)),
+                  "constant": np.full(T, 37.0), "one positive": np.r_[np.zeros(T - 1), 12.0]}
+    ref = run_cube([ordinary], "int16", win)[0]
+    for name, dp in degenerate.items():
+        try:
+            res = run_cube([dp, ordinary], "int16", win)
+            if not np.array_equal(res[1], ref):
+                probs.append(f"{name} pixel changed the result of its neighbour")
+            if name in ("all-negative", "all-nodata") and not np.all(res[0] == nodata):
+                probs.append(f"{name} pixel must yield nodata everywhere")
+        except Exception as e:  # noqa
+            probs.append(f"{name} pixel next to an ordinary pixel: raised {type(e).__name__}: {e}"[:160])
+    # 3. ordering and saturation with outliers outside the calibration window
+    cal_n = T - 1
+    for factor in [10.0 ** k for k in (1, 2, 3, 4, 5, 6)] + [10.0 ** -k for k in (1, 3, 10, 30, 100, 300)] + [0.0]:
+        pix = ordinary.copy()
+        pix[-1] = ordinary[:cal_n].mean() * factor
+        try:
+            res = run_cube([pix], "float64", (0, cal_n))[0].astype("int64")
+        except Exception as e:  # noqa
+            probs.append(f"outlier x{factor:g}: raised {type(e).__name__}"[:160])
+            continue
+        order = np.argsort(pix, kind="stable")
+        vals = res[order]
+        obs = pix[order]
+        for a in range(len(vals) - 1):
+            if vals[a] != nodata and vals[a + 1] != nodata and obs[a] <= obs[a + 1] and vals[a] > vals[a + 1]:
+                probs.append(f"outlier x{factor:g}: observation {obs[a]:.4g} -> {vals[a]} but larger observation {obs[a + 1]:.4g} -> {vals[a + 1]}")
+                break
+    return {"violates": bool(probs), "why": probs[:6]}
